@@ -78,7 +78,12 @@ def gen_case(rng: random.Random, tier: str) -> dict:
             fnode = rng.choice([nd["name"] for nd in inner["nodes"] if nd["kind"] == "fn"])
             fault = {"kind": "raise", "node": fnode, "run_pred": {mapped[j]: rng.choice(lists[mapped[j]])}, "fid": 0, "when": rng.choice(["before", "after"]), "exc": rng.choice(["plain", "plain", "noargs", "keyerror"])}
     via = rng.choice(["runner_map", "node", "node"])
-    outer = {"rename_in": rng.random() < 0.3, "rename_out": rng.random() < 0.3, "consumer": rng.random() < 0.5}
+    outer = {"rename_in": rng.random() < 0.3, "rename_out": rng.random() < 0.3, "consumer": rng.random() < 0.5,
+             "rename_after_map": rng.random() < 0.4,  # with_inputs/with_outputs called after map_over instead of before
+             "inner_bind_equal": rng.random() < 0.25,  # the inner graph binds a broadcast input to an EQUAL (not identical) value
+             "inner_select": rng.random() < 0.25}  # runner.map on a graph that carries a default selection
+    map_order = list(mapped)
+    rng.shuffle(map_order)  # declared map_over order (the axis order of a product) need not be the signature order
     cfgs = []
     for _ in range(2):
         style = rng.choice(["reverse", "ties", "random", "random"])
@@ -87,7 +92,7 @@ def gen_case(rng: random.Random, tier: str) -> dict:
             vals = lists[mapped[0]]
             sch["arg_delay"] = {"param": mapped[0], "table": {str(v): (len(vals) - t) * 3 if style == "reverse" else 2 for t, v in enumerate(vals)}}
         cfgs.append({"schedule": sch, "shuffle": rng.randrange(1 << 30) if rng.random() < 0.2 else None, "max_concurrency": rng.choice([None, None, 1, 2, 3])})
-    return {"inner": inner, "map_mode": mode, "lists": lists, "broadcast": broadcast, "clone": clone, "error_handling": rng.choice(["raise", "continue"]), "fault": fault, "via": via, "outer": outer, "async": cfgs}
+    return {"inner": inner, "map_mode": mode, "lists": lists, "broadcast": broadcast, "clone": clone, "error_handling": rng.choice(["raise", "continue"]), "fault": fault, "via": via, "outer": outer, "async": cfgs, "map_order": map_order}
 
 
 def _prod(xs) -> int:
@@ -99,7 +104,7 @@ def _prod(xs) -> int:
 
 def combos(doc: dict) -> list[dict]:
     """The 5-line model: zip is position-wise, product is row-major in map_over order."""
-    mapped = doc["inner"]["mapped"]
+    mapped = doc.get("map_order") or doc["inner"]["mapped"]
     lists = doc["lists"]
     if doc["map_mode"] == "zip":
         n = len(lists[mapped[0]])
@@ -127,20 +132,42 @@ def _outer_spec(doc: dict) -> tuple[dict, dict, dict]:
     clone = doc["clone"]
     if isinstance(clone, list):
         clone = [rin.get(c, c) for c in clone]
+    order = doc.get("map_order") or mapped
     node = {
         "kind": "graph",
         "name": "inner",
-        "graph": {k: v for k, v in inner.items() if k in ("name", "nodes", "order")},
+        "graph": _inner_spec(doc),
         "renames": renames,
-        "map_over": [rin.get(m, m) for m in mapped],
+        "map_over": [rin.get(m, m) for m in order],
         "map_mode": doc["map_mode"],
         "error_handling": doc["error_handling"],
         "clone": clone,
     }
+    if doc["outer"].get("rename_after_map") and renames:
+        # configure the mapping in the original names first, rename afterwards
+        node["renames"] = []
+        node["renames_after"] = renames
+        node["map_over"] = list(order)
+        node["clone"] = doc["clone"]
     nodes = [node]
     if doc["outer"]["consumer"] and outs:
         nodes.append({"kind": "fn", "name": "cons", "params": [{"name": rout.get(outs[-1], outs[-1])}], "outs": ["z"]})
     return {"name": "outer", "nodes": nodes, "order": list(range(len(nodes)))}, rin, rout
+
+
+def _inner_spec(doc: dict, *, for_runner_map: bool = False) -> dict:
+    inner = doc["inner"]
+    spec = {k: v for k, v in inner.items() if k in ("name", "nodes", "order")}
+    used = {p["name"] for nd in inner["nodes"] for p in nd.get("params", [])}
+    if doc["outer"].get("inner_bind_equal"):
+        bc = [b for b in inner["bc"] if b in used]
+        if bc:
+            spec = dict(spec, bind={bc[0]: list(doc["broadcast"][bc[0]])})
+    if for_runner_map and doc["outer"].get("inner_select"):
+        outs = [o for nd in inner["nodes"] if nd["kind"] == "fn" for o in nd["outs"]]
+        if outs:
+            spec = dict(spec, select=outs[: max(1, len(outs) // 2)])
+    return spec
 
 
 def _item_summary(o: dict) -> list:
@@ -150,7 +177,7 @@ def _item_summary(o: dict) -> list:
 def run_case(doc: dict) -> dict:
     res = empty_result()
     inner = doc["inner"]
-    ispec = {k: v for k, v in inner.items() if k in ("name", "nodes", "order")}
+    ispec = _inner_spec(doc, for_runner_map=(doc["via"] == "runner_map"))
     mapped = inner["mapped"]
     cs = combos(doc)
     faults = [doc["fault"]] if doc.get("fault") else []
@@ -174,7 +201,7 @@ def run_case(doc: dict) -> dict:
             tag = label
             if doc["via"] == "runner_map":
                 vals = {**bvals, **{m: list(doc["lists"][m]) for m in mapped}}
-                kw = {"map_over": list(mapped), "map_mode": doc["map_mode"], "clone": doc["clone"], "error_handling": doc["error_handling"]}
+                kw = {"map_over": list(doc.get("map_order") or mapped), "map_mode": doc["map_mode"], "clone": doc["clone"], "error_handling": doc["error_handling"]}
                 w = run_world(ispec, vals, mode=label, cfg=cfg, faults=copy.deepcopy(faults), run_kwargs=kw, op="map")
                 _judge_runner_map(doc, w, refs, failing, cs, tag, viol)
             else:
@@ -356,8 +383,8 @@ def shrink_candidates(doc: dict):
         c = copy.deepcopy(doc)
         c["clone"] = False
         yield c
-    for k in ("rename_in", "rename_out", "consumer"):
-        if doc["outer"][k]:
+    for k in ("rename_in", "rename_out", "consumer", "rename_after_map", "inner_bind_equal", "inner_select"):
+        if doc["outer"].get(k):
             c = copy.deepcopy(doc)
             c["outer"][k] = False
             yield c
